@@ -116,11 +116,18 @@ func registerCompiledRoute(router *server.Router, route *ast.Route, bytecode []b
 	return router.RegisterRoute(serverRoute)
 }
 
+// maxCompiledRouteSteps is the number of VM instructions a single compiled
+// request may execute before it is aborted with an error.
+const maxCompiledRouteSteps = 50_000_000
+
 // createCompiledRouteHandler creates an HTTP handler that executes compiled bytecode
 func createCompiledRouteHandler(route *ast.Route, bytecode []byte, wsHub *websocket.Hub) server.RouteHandler {
 	return func(ctx *server.Context) error {
-		// Create VM instance
+		// Create VM instance. Bound the work one request may do, as the
+		// interpreter's loop limit does: without a step limit `while true {}`
+		// in a compiled route never returns and pins a CPU.
 		vmInstance := vm.NewVM()
+		vmInstance.SetMaxSteps(maxCompiledRouteSteps)
 
 		// Set up WebSocket stats handler if hub is available
 		if wsHub != nil {
